@@ -101,7 +101,7 @@ def gen_dmz_cross(rng: Rng) -> dict:
     """Misconfiguration family "two IP subnets on one layer-2 segment": two firewalls (or a firewall and a router) are cross-connected
     so that each one's DMZ port shares a segment with a port of the other that uses ANOTHER subnet, and each routes the other's
     subnet through a next hop on its own side.  ARP requests for those next hops are layer-2 broadcasts that arrive on a DMZ port
-    without being for the firewall; before repair F-58 each one started a look-up, i.e. the next ARP request, without end."""
+    without being for the firewall; before repair F-C08-r3-1 each one started a look-up, i.e. the next ARP request, without end."""
     t = Topo()
     k2 = rng.choice(["firewall", "firewall", "router"])
     f1, f2 = t.router("firewall"), t.router(k2)
